@@ -54,6 +54,12 @@ void h_ambi_sup(void) {
 	token * t = mk_tok(TOKTYPE, start, 1);
 	block->child = t;
 	token * last = t; size_t pos = start + 1;
+#ifdef FIXED_LAYOUT
+	/* concrete layout (keeps the chain's pointers concrete for symex; with a symbolic layout the unit did not finish in 600 s) */
+	ASSUME(n == start + 1 + L1 + L2 + L3);
+	{ static const size_t LEN[3] = { L1, L2, L3 };          /* one unit per layout; a length of 0 = no such token */
+	  for (int i = 0; i < 3; i++) { if (LEN[i] > 0) { token * x = mk_tok(TEXT_PLAIN, pos, LEN[i]); last->next = x; x->prev = last; last = x; pos += LEN[i]; } } }
+#else
 	for (int i = 0; i < NT; i++) {
 		IN(bool, more); IN(size_t, l); IN(unsigned char, kind);
 		if (more && pos < n) {
@@ -67,6 +73,7 @@ void h_ambi_sup(void) {
 			last->next = x; x->prev = last; last = x; pos += l;
 		}
 	}
+#endif
 	t->tail = last;
 	mmd_assign_ambidextrous_tokens_in_block(e, block, 0);
 	ASSERT(block->child == t, "the marker token stays the first child");
